@@ -1235,6 +1235,7 @@ func (p *parser) parseJob(id *String, n *yaml.Node) *Job {
 			stepsOnlyKeys = append(stepsOnlyKeys, k)
 		case "services":
 			ret.Services = p.parseServices(v)
+			stepsOnlyKeys = append(stepsOnlyKeys, k)
 		case "uses":
 			call.Uses = p.parseString(v, false)
 			callOnlyKeys = append(callOnlyKeys, k)
